@@ -35,10 +35,25 @@ Definition resp_eqb (a b : resp) : bool :=
   | RResults x, RResults y => list_eqb (fun p q => (fst p =? fst q) && astatus_eqb (snd p) (snd q)) x y
   | _, _ => false
   end.
+Fixpoint prefix_eqb {A} (eqb : A -> A -> bool) (short long : list A) : bool :=
+  match short, long with
+  | [], _ => true
+  | a :: t1, b :: t2 => eqb a b && prefix_eqb eqb t1 t2
+  | _, _ => false
+  end.
+(* a = model, b = implementation.  When the step ends the RPC, responses that were produced
+   before the fatal error race with the termination of the stream (the server hands them to
+   the sender goroutine, which may or may not write them before Modify returns): the
+   implementation's responses must then be a prefix of the model's. *)
 Definition out_eqb (a b : out) : bool :=
-  list_eqb resp_eqb (o_resps a) (o_resps b)
-  && opt_eqb (fun p q => code_eqb (fst p) (fst q) && reason_eqb (snd p) (snd q)) (o_end a) (o_end b).
+  opt_eqb (fun p q => code_eqb (fst p) (fst q) && reason_eqb (snd p) (snd q)) (o_end a) (o_end b)
+  && match o_end a with
+     | Some _ => prefix_eqb resp_eqb (o_resps b) (o_resps a)
+     | None => list_eqb resp_eqb (o_resps a) (o_resps b)
+     end.
 
 (* indices of the elements for which f is false *)
 Fixpoint bad_indices {A} (f : A -> bool) (l : list A) (i : N) : list N :=
   match l with [] => [] | a :: tl => if f a then bad_indices f tl (i + 1) else i :: bad_indices f tl (i + 1) end.
+
+Definition mkout rs e : out := {| o_resps := rs; o_end := e |}.
